@@ -101,6 +101,9 @@ package rotation
 //@   |   tsTime(ret.Current.NotBefore) == t + nb && tsTime(ret.Current.NotAfter) == t + life
 //@   |   && tsTime(ret.Next.NotBefore) == t + nb + life / 2 && tsTime(ret.Next.NotAfter) == t + life + life / 2
 //@   ensures[C08 ca] err == nil ==> true
+// C12: the caller's storage wrapper reaches the Store and Load of the roots
+//@   call types.(*RootCertificates).Store assert[C12 wrapperpassed] opts(arg3).WithStorageWrapper == opts(opt).WithStorageWrapper
+//@   call types.LoadRootCertificates assert[C12 wrapperpassedload] opts(arg2).WithStorageWrapper == opts(opt).WithStorageWrapper
 // C09: the same regions with closed boundaries, and the exact windows of a bootstrap
 //@   ensures[C09 keepB] err == nil && reliable() && hadRoots() && ocNB <= t && t <= ocNA && onNB > t && onNA >= t ==>
 //@   |   sameRoot(ret.Current, old(StGet("roots", "roots").Current)) && sameRoot(ret.Next, old(StGet("roots", "roots").Next))
